@@ -45,9 +45,9 @@ REGISTRY = dict(
           "(every recv has its send); for send-all/receive-all programs this is proved for all n, for index-subset programs (get_attr/set_attr/env_method) it is evaluated per generated case. "
           "The replies equal the DummyVecEnv loops of Model/VecEnv.v (C01) by theorem for step() and reset() (C02_step_eq_dummy_step, C02_reset_eq_dummy_reset); attribute/method calls equal the "
           "for-i-in-targets loop (dloop) by theorem. "
-          "RESTRICTIONS (partial): the calls are the atomic public calls named by the property (reset, step, seed, set_options, get_attr, set_attr, env_method, env_is_wrapped); "
+          "RESTRICTIONS (partial): the calls are the atomic public calls named by the property (reset, step, seed, set_options, get_attr, set_attr, env_method, env_is_wrapped, has_attr); "
           "a history that interleaves step_async / another call / step_wait is NOT covered - there the two classes really differ (the get_attr receive takes the step reply waiting in the pipe; "
-          "Props/C02.v ex_async_interleaving_mixes_replies shows the model doing the same) - reported to the lead as a finding candidate; has_attr and get_images are tied by their skeleton only. "
+          "Props/C02.v ex_async_interleaving_mixes_replies shows the model doing the same) - reported to the lead as a finding candidate; has_attr is an atomic public call of the model since round 5 (C02_has_attr_any_schedule: the answer under every schedule is the DummyVecEnv answer on the CURRENT sub-environment states; driven with attributes that exist, never exist, are created / deleted by env methods, by set_attr, by the environment itself in step()/reset() - the last kind class against class and oracle only); get_images / render are tied by their skeleton only. "
           "Illegal calls are excluded by hypothesis (call_targets_ok: indices in range, one action / options entry per sub-environment): on a too-short action list DummyVecEnv raises IndexError while "
           "SubprocVecEnv.step blocks (zip) - outside the quantifier, reported. C02_worker_determinism holds for any deterministic worker function (the modelling assumption), it is not a fact about the code. "
           "Delays are injected in the sub-environments' step() and reset() only. "
@@ -60,6 +60,47 @@ HEADER = """From Coq Require Import List ZArith Bool.
 From SB3V Require Import Model.Script Model.VecEnv Model.Subproc.
 Import ListNotations.
 """
+
+# round 5: attribute names of has_attr. The first four are in the Coq call language (Model/Subproc.v attr_present: 0 exists from the start, 1 never exists,
+# 2 created / deleted by the sub-environment's own methods make_dyn / drop_dyn through env_method, 3 created by set_attr); the last two are created by the
+# environment itself (when an episode ends in step() / at its second reset()) and are compared class against class and with the oracle only
+ATTR_CODE = {"attr_value": 0, "zz_missing_attribute": 1, "dyn_attr": 2, "made_attr": 3}
+ENV_MADE_ATTRS = ["ep_end_attr", "second_reset_attr"]
+
+
+def gen_attr_story(rng, n, name):
+    """calls about one attribute, in order: has_attr before, between and after the events that create / delete it"""
+    has = ["has_attr", name]
+    if name == "dyn_attr":
+        ops = [has]
+        for _ in range(rng.randint(1, 4)):
+            ops.append(["dyn_method", rng.random() < 0.65, gen_indices(rng, n) if rng.random() < 0.6 else None])
+            if rng.random() < 0.85:
+                ops.append(has)
+        return ops + [has]
+    if name == "made_attr":
+        ops = [has]
+        for _ in range(rng.randint(1, 3)):
+            ops.append(["set_made", rng.randint(1, 99), gen_indices(rng, n) if rng.random() < 0.5 else None])
+            ops.append(has)
+        return ops
+    return [has] * rng.randint(2, 4)
+
+
+def add_attr_stories(rng, n, calls):
+    """insert 1-2 attribute stories at random increasing positions after the first reset (the other calls of the history - steps, resets,
+    set_attr, env_method - happen in between)"""
+    names = rng.sample(["dyn_attr", "dyn_attr", "made_attr", "ep_end_attr", "second_reset_attr", "attr_value", "zz_missing_attribute"], rng.randint(1, 2))
+    for name in dict.fromkeys(names):
+        ops = gen_attr_story(rng, n, name)
+        first = next(i for i, c in enumerate(calls) if c[0] == "reset") + 1
+        pos = sorted(rng.randint(first, len(calls)) for _ in ops)
+        if name in ENV_MADE_ATTRS:
+            pos[0], pos[-1] = first, len(calls)          # before the environment can have made it, and at the very end
+        for k, (q, op) in enumerate(zip(pos, ops)):
+            calls.insert(q + k, list(op))
+    return calls
+
 
 OBS_KINDS = ["box1", "image_hwc", "discrete", "multidiscrete", "multibinary", "dict", "tuple", "box2", "image_chw", "goal"]
 
@@ -108,7 +149,7 @@ def gen_case(rng, idx, start_method="fork", max_n=3, dyn=False):
         elif u < 0.75:
             calls.append(["seed", None])                                                        # VecEnv.seed() draws the seed itself
         elif u < 0.76:
-            calls.append(["has_attr", rng.choice(["attr_value", "zz_missing_attribute"])])
+            calls.append(["has_attr", rng.choice(["attr_value", "zz_missing_attribute", "dyn_attr", "made_attr"] + ENV_MADE_ATTRS)])
         elif u < 0.84:
             calls.append(["get_attr", gen_indices(rng, n)])
         elif u < 0.90:
@@ -129,6 +170,8 @@ def gen_case(rng, idx, start_method="fork", max_n=3, dyn=False):
             k = next(i for i, c in enumerate(extra) if c[0] == "reset") + 1
             extra[k:k] = [["set_dyn", 5000, None], ["get_dyn", None], ["read_dyn", None]]
         calls = extra
+    if rng.random() < 0.6:
+        calls = add_attr_stories(rng, n, calls)
     n_steps = sum(1 for c in calls if c[0] == "step") + 2
     pattern = rng.choice(["random", "reversed", "straggler", "none"])
     sleeps = []
@@ -179,7 +222,7 @@ def make_fn(script, wrapped, reset_delay=0.0, slow_wrapper=False, **kw):
         class DynEnv(se.ScriptedEnv):
             """ScriptedEnv with an attribute on the INNER environment that drives its dynamics: info tags are shifted by it"""
 
-            def step(self, action):
+            def _shifted_step(self, action):
                 obs, rew, term, trunc, info = super().step(action)
                 if self.info_shift and "tag" in info:
                     info = dict(info, tag=info["tag"] + self.info_shift)
@@ -187,6 +230,30 @@ def make_fn(script, wrapped, reset_delay=0.0, slow_wrapper=False, **kw):
 
             def read_shift(self):
                 return self.info_shift
+
+            # round 5: attributes that come into existence (and go away) during the life of the sub-environment
+            def step(self, action):       # noqa: F811 - wraps the shifted step above
+                out = DynEnv._shifted_step(self, action)
+                if out[2] or out[3]:
+                    self.ep_end_attr = self.total_steps          # created by the environment when its first episode ends
+                return out
+
+            def reset(self, **kwargs):
+                out = super().reset(**kwargs)
+                if self.n_resets >= 2:
+                    self.second_reset_attr = self.n_resets       # created by the environment at its second reset
+                return out
+
+            def make_dyn(self):
+                had = "dyn_attr" in self.__dict__
+                self.dyn_attr = 1
+                return had
+
+            def drop_dyn(self):
+                had = "dyn_attr" in self.__dict__
+                if had:
+                    del self.dyn_attr
+                return had
 
         env = DynEnv(script, **kw)
         env.info_shift = 0
@@ -246,6 +313,10 @@ def do_call(venv, case, call):
             d["k"] = -777
     elif call[0] == "has_attr":
         ret = venv.has_attr(call[1])
+    elif call[0] == "dyn_method":
+        ret = venv.env_method("make_dyn" if call[1] else "drop_dyn", indices=call[2])
+    elif call[0] == "set_made":
+        ret = venv.set_attr("made_attr", call[1], indices=call[2])
     elif call[0] == "set_dyn":
         ret = venv.set_attr("info_shift", call[1], indices=call[2])
     elif call[0] == "get_dyn":
@@ -264,6 +335,17 @@ def do_call(venv, case, call):
         raise ValueError(call)
     # reset_infos is observable state: compared after EVERY call
     return {"ret": ret, "reset_infos": venv.reset_infos}
+
+
+def attr_present_now(env, name):
+    """the attribute exists on the environment or one of its wrappers (instance attribute or class member), looked up without the VecEnv API"""
+    e = env
+    while True:
+        if name in vars(e) or hasattr(type(e), name):
+            return True
+        if "env" not in vars(e):
+            return False
+        e = vars(e)["env"]
 
 
 def same(a, b, path=""):
@@ -351,6 +433,14 @@ def run_pair(case, calls=None):
                 rs = do_call(sub, case, call)
                 if call[0] == "seed" and call[1] is None and rs.get("ret"):
                     case.setdefault("_drawn", {})[k] = int(rs["ret"][0])      # oracle input of the model: the seed VecEnv.seed() drew
+                if call[0] == "has_attr":
+                    # ORACLE (from the property text, independent of both has_attr implementations): the answer is True iff the attribute exists NOW in
+                    # every sub-environment - looked up directly in the DummyVecEnv's in-process sub-environments (same constructors, same inputs)
+                    per = [attr_present_now(e, call[1]) for e in dummy.envs]
+                    for cls, r in (("SubprocVecEnv", rs), ("DummyVecEnv", rd)):
+                        if bool(r["ret"]) != all(per):
+                            probs.append(("oracle-has-attr-differs", f"call {k}: {cls}.has_attr({call[1]!r}) = {r['ret']!r} but the attribute is present per sub-environment "
+                                                                     f"{per} at this point of the history (other class answered {(rd if r is rs else rs)['ret']!r})"))
                 for sig, msg in compare_call(call, rd, rs):
                     probs.append((sig, f"call {k} {call[:1]}: {msg}"))
                 trace.append(decode_call(case, sub, call, rs))
@@ -411,6 +501,12 @@ def decode_call(case, venv, call, res):
             return [[i, ["ResMethod", v[0], v[1][0]]] for i, v in zip(targets_of(call[2], n), res["ret"])]
         if call[0] == "is_wrapped":
             return [[i, ["ResBool", bool(v)]] for i, v in zip(targets_of(call[1], n), res["ret"])]
+        if call[0] == "has_attr" and call[1] in ATTR_CODE:
+            return [["all", ["HasAttr", res["ret"]]]]          # the public answer: one boolean for all workers
+        if call[0] == "dyn_method":
+            return [[i, ["ResBool", v]] for i, v in zip(targets_of(call[2], n), res["ret"])]
+        if call[0] == "set_made":
+            return [[i, ["ResNone"]] for i in targets_of(call[2], n)]
     except Exception as e:  # noqa: BLE001
         return [["undecodable", f"{type(e).__name__}: {e}"]]
     return []
@@ -435,7 +531,12 @@ def coq_calls(case, calls=None):
         elif c[0] == "set_options_all":
             out.append(f"KaSetOptions {coq_list([c[1]] * n, lambda o: coq_option(o, coq_Z))}")
         elif c[0] == "has_attr":
-            pass        # driven on both classes and compared; not part of the protocol model's call language (tied by its skeleton)
+            if c[1] in ATTR_CODE:      # attributes made by the environment itself in step()/reset() are outside the Coq call language
+                out.append(f"KaHasAttr {coq_nat(ATTR_CODE[c[1]])}")
+        elif c[0] == "dyn_method":
+            out.append(f"KaDynMethod {'true' if c[1] else 'false'} {coq_list(targets_of(c[2], n), coq_nat)}")
+        elif c[0] == "set_made":
+            out.append(f"KaSetMade {coq_list(targets_of(c[2], n), coq_nat)}")
         elif c[0] == "set_options":
             out.append(f"KaSetOptions {coq_list(c[1], lambda o: coq_option(o, coq_Z))}")
         elif c[0] == "get_attr":
@@ -489,6 +590,32 @@ def model_log(val):
         else:
             out.append([i, list(r)])
     return out
+
+
+def public_log(case, mlog):
+    """the model's log holds one ResBool per worker for has_attr; the public call returns their conjunction (Model/Subproc.v has_attr_answer):
+    walk the calls, replace the n replies of every has_attr by the single public answer"""
+    n, out, k = case["n"], [], 0
+    for c in case["calls"]:
+        if c[0] in ("reset", "step"):
+            m = n
+        elif c[0] in ("get_attr", "is_wrapped"):
+            m = len(targets_of(c[1], n))
+        elif c[0] in ("set_attr", "env_method", "dyn_method", "set_made"):
+            m = len(targets_of(c[2], n))
+        elif c[0] == "has_attr" and c[1] in ATTR_CODE:
+            part = mlog[k:k + n]
+            if [e[0] for e in part] == list(range(n)) and all(e[1][0] == "ResBool" for e in part):
+                out.append(["all", ["HasAttr", all(e[1][1] for e in part)]])
+            else:
+                out += part            # not the shape of a has_attr answer: left as it is (compares unequal)
+            k += n
+            continue
+        else:
+            m = 0
+        out += mlog[k:k + m]
+        k += m
+    return out + mlog[k:]
 
 
 def integral_rewards(case):
@@ -579,8 +706,24 @@ def main():
         hist["obs_kind"][c["obs_kind"]] = hist["obs_kind"].get(c["obs_kind"], 0) + 1
         hist["n_envs"][c["n"]] = hist["n_envs"].get(c["n"], 0) + 1
         hist["total_calls"] += len(c["calls"])
+        last_has, changed = {}, set()
         for call in c["calls"]:
             hist["calls"][call[0]] = hist["calls"].get(call[0], 0) + 1
+            # round 5: has_attr calls per attribute; "re-asked after a change" = the same name asked before AND an event that can create / delete it in between
+            if call[0] == "has_attr":
+                ha = hist.setdefault("has_attr", {"by_name": {}, "reasked_after_possible_change": 0, "in_coq_language": 0})
+                ha["by_name"][call[1]] = ha["by_name"].get(call[1], 0) + 1
+                ha["in_coq_language"] += call[1] in ATTR_CODE
+                if call[1] in last_has and call[1] in changed:
+                    ha["reasked_after_possible_change"] += 1
+                last_has[call[1]] = True
+                changed.discard(call[1])
+            elif call[0] == "dyn_method":
+                changed.add("dyn_attr")
+            elif call[0] == "set_made":
+                changed.add("made_attr")
+            elif call[0] in ("step", "reset"):
+                changed.update(ENV_MADE_ATTRS)
         if c["n"] >= 2 and c.get("delay_pattern") != "none" and any(call[0] in ("get_attr", "set_attr", "env_method", "is_wrapped") for call in c["calls"]):
             distinct.add(json.dumps([c["obs_kind"], c["scripts"], c["calls"], c["sleeps"]], sort_keys=True))
         known = [p for p in probs if p[0] == "reward-dtype-float32-vs-float64"]
@@ -596,9 +739,9 @@ def main():
         if i in mvals:
             hist["model_compared"] += 1
             (left, mlog), seqlog = mvals[i]
-            mlog = model_log(mlog)
+            mlog = public_log(c, model_log(mlog))
             impl_log = [e for t in trace for e in t]
-            sl = model_log(seqlog[1]) if isinstance(seqlog, tuple) and seqlog[0] == "Some" else None
+            sl = public_log(c, model_log(seqlog[1])) if isinstance(seqlog, tuple) and seqlog[0] == "Some" else None
             if left != 0 or mlog != impl_log or sl != mlog:
                 j = next((j for j, (a, b) in enumerate(zip(mlog, impl_log)) if a != b), min(len(mlog), len(impl_log)))
                 chk.violation("model-correspondence-protocol-log",
@@ -615,6 +758,7 @@ def main():
                             "attribute/method call with indices; distinct = distinct (kind, scripts, calls, delays)")
     chk.notes["input_distribution"] = hist
     chk.notes["start_methods_run"] = dict(hist["start_method"])   # which multiprocessing start methods were actually exercised in this run
+    chk.coverage["has_attr"] = hist.get("has_attr", {})
     chk.notes["corpus_cases"] = n_corpus
     chk.add_samples([{k: cases[i][k] for k in ("obs_kind", "n", "delay_pattern", "start_method", "calls")} for i in (n_corpus, len(cases) - 1) if i < len(cases)])
     chk.assumptions += [
